@@ -153,7 +153,7 @@ def pipe_consts(h):
             lean = lean[1:-1]
         body += (f"/-- `pub const {name}: usize = {text};` of {FILE} (= {val}) -/\n"
                  f"def {name} : Nat := {lean}\n\n")
-    body += fd_consts(h) + subst_trim_char(h) + read_all_reserve(h)
+    body += fd_consts(h) + subst_trim_char(h) + read_all_reserve(h) + fd_targets(h)
     h.write("PipeConsts", body.rstrip("\n") + "\n")
 
 
@@ -251,6 +251,127 @@ def read_all_reserve(h):
     val = int_literal(h, f"reserve(…) in {RW_FILE}", arg)
     return (f"/-- `buffer.reserve({ms[0]}.saturating_sub(unused))` in `read_all_to` of {RW_FILE}: the least room\n"
             f"    offered to each `read` -/\ndef READ_ALL_RESERVE : Nat := {val}\n\n")
+
+
+# ---- wave 3: which standard descriptor each descriptor-arranging function names ---------------------------
+
+PIPELINE_FILE = "yash-semantics/src/command/pipeline.rs"
+FDX = r"(?:(?:[A-Za-z_][A-Za-z_0-9]*::)*Fd::(?:STDIN|STDOUT|STDERR)|\b(?:STDIN|STDOUT|STDERR)\b|(?:[A-Za-z_][A-Za-z_0-9]*::)*Fd\s*\(\s*[0-9][0-9_a-z]*\s*\))"
+
+
+def strip_comments(src):
+    return "\n".join(l for l in src.split("\n") if not l.strip().startswith("//"))
+
+
+def fn_text(h, code, name, where):
+    """text of the body of `fn <name>` (brace matching; the function is unique in the file)"""
+    ms = list(re.finditer(r"\bfn\s+" + name + r"\b", code))
+    if len(ms) != 1:
+        h.fail(f"anchor not found (or not unique): fn {name} in {where}")
+    # the body starts at the first `{` that follows the parameter list and the where clause: the first `{`
+    # at the start of a line or after `)` / a type, i.e. simply the first `{` not inside `<…>` — these two
+    # functions have none in their signatures
+    i = code.index("{", ms[0].end())
+    depth, j = 0, i
+    while j < len(code):
+        if code[j] == "{":
+            depth += 1
+        elif code[j] == "}":
+            depth -= 1
+            if depth == 0:
+                return code[i + 1:j]
+        j += 1
+    h.fail(f"fn {name} in {where}: unbalanced braces")
+
+
+def fd_value(h, where, text, fds):
+    """number of a descriptor expression: `Fd::STDOUT`, `STDOUT`, `Fd(1)`"""
+    t = text.strip()
+    m = re.search(r"\b(STDIN|STDOUT|STDERR)$", t)
+    if m:
+        return fds[m.group(1)]
+    m = re.search(r"Fd\s*\(\s*([^()]*)\)$", t)
+    if m:
+        return int_literal(h, where, m.group(1))
+    h.fail(f"{where}: cannot translate the descriptor expression `{t}`")
+
+
+def one(h, where, what, body, patterns):
+    """the descriptor expressions captured by any of the equivalent patterns; all occurrences must agree on
+    one number, at least one must exist"""
+    found = []
+    for pat in patterns:
+        found += re.findall(pat, body)
+    if not found:
+        h.fail(f"anchor not found: {what} in {where}")
+    return found
+
+
+def fd_targets(h):
+    """The standard descriptors named by `subshell_body` (command substitution, child side) and by
+    `PipeSet::move_to_stdin_stdout` (pipeline member): the target of each `dup2`, the descriptor each guard
+    compares with, the source and the minimum of the `dup` in the `read_previous == STDOUT` special case.
+    Accepts `Fd::STDOUT` / `STDOUT` / `Fd(1)` spellings and either operand order of `!=` / `==`; every group
+    must be present (else a loud failure).  The numbers are emitted one by one so that
+    `YashModel.Pipe.real_fd_targets` (decide) breaks when any of them is not what Fds.lean hard-codes."""
+    io = h.read(IO_FILE)
+    fds = {}
+    for name in ["STDIN", "STDOUT", "STDERR"]:
+        ms = re.findall(r"\bpub\s+const\s+" + name + r"\s*:\s*(?:Fd|Self)\s*=\s*(?:Fd|Self)\s*\(([^()]*)\)\s*;", io)
+        if len(ms) != 1:
+            h.fail(f"anchor not found (or not unique): pub const {name}: Fd = Fd(<integer>) in {IO_FILE}")
+        fds[name] = int_literal(h, f"const {name} in {IO_FILE}", ms[0])
+
+    def values(where, what, body, patterns):
+        vals = {fd_value(h, f"{what} in {where}", x, fds) for x in one(h, where, what, body, patterns)}
+        if len(vals) != 1:
+            h.fail(f"{where}: {what}: occurrences disagree ({sorted(vals)})")
+        return vals.pop()
+
+    out = ""
+    # command substitution, child side
+    where = f"fn subshell_body of {SUBST_FILE}"
+    body = fn_text(h, strip_comments(h.read(SUBST_FILE)), "subshell_body", SUBST_FILE)
+    guard = values(where, "guard `writer != <fd>`", body,
+                   [r"\bwriter\s*!=\s*(" + FDX + r")", r"(" + FDX + r")\s*!=\s*writer\b",
+                    r"!\s*\(\s*writer\s*==\s*(" + FDX + r")\s*\)"])
+    target = values(where, "`dup2(writer, <fd>)`", body, [r"\bdup2\s*\(\s*writer\s*,\s*(" + FDX + r")\s*\)"])
+    out += (f"/-- `if writer != <fd>` of `subshell_body` ({SUBST_FILE}) -/\ndef SUBST_GUARD_FD : Nat := {guard}\n\n"
+            f"/-- `dup2(writer, <fd>)` of `subshell_body` -/\ndef SUBST_DUP2_TARGET : Nat := {target}\n\n")
+    # pipeline member
+    where = f"fn move_to_stdin_stdout of {PIPELINE_FILE}"
+    code = strip_comments(h.read(PIPELINE_FILE))
+    cut = code.find("#[cfg(test)]")
+    if cut >= 0:
+        code = code[:cut]
+    body = fn_text(h, code, "move_to_stdin_stdout", PIPELINE_FILE)
+    wguard = values(where, "guard `writer != <fd>`", body,
+                    [r"\bwriter\s*!=\s*(" + FDX + r")", r"(" + FDX + r")\s*!=\s*writer\b",
+                     r"!\s*\(\s*writer\s*==\s*(" + FDX + r")\s*\)"])
+    special = values(where, "guard `read_previous == Some(<fd>)`", body,
+                     [r"\bread_previous\s*==\s*Some\s*\(\s*(" + FDX + r")\s*\)",
+                      r"Some\s*\(\s*(" + FDX + r")\s*\)\s*==\s*self\s*\.\s*read_previous\b"])
+    dups = one(h, where, "`dup(<fd>, <min>, …)`", body, [r"\bdup\s*\(\s*(" + FDX + r")\s*,\s*(" + FDX + r")\s*,"])
+    if len(dups) != 1:
+        h.fail(f"{where}: `dup(<fd>, <min>, …)` is not unique")
+    dup_src = fd_value(h, f"dup source in {where}", dups[0][0], fds)
+    dup_min = fd_value(h, f"dup minimum in {where}", dups[0][1], fds)
+    wtarget = values(where, "`dup2(writer, <fd>)`", body, [r"\bdup2\s*\(\s*writer\s*,\s*(" + FDX + r")\s*\)"])
+    rguard = values(where, "guard `reader != <fd>`", body,
+                    [r"\breader\s*!=\s*(" + FDX + r")", r"(" + FDX + r")\s*!=\s*reader\b",
+                     r"!\s*\(\s*reader\s*==\s*(" + FDX + r")\s*\)"])
+    rtarget = values(where, "`dup2(reader, <fd>)`", body, [r"\bdup2\s*\(\s*reader\s*,\s*(" + FDX + r")\s*\)"])
+    for name, val, doc in [
+        ("MOVE_WRITER_GUARD_FD", wguard, "`if writer != <fd>`"),
+        ("MOVE_SPECIAL_FD", special, "`if self.read_previous == Some(<fd>)`"),
+        ("MOVE_DUP_SOURCE", dup_src, "`dup(<fd>, _, _)` of the special case"),
+        ("MOVE_DUP_MIN", dup_min, "`dup(_, <min>, _)` of the special case"),
+        ("MOVE_WRITER_TARGET", wtarget, "`dup2(writer, <fd>)`"),
+        ("MOVE_READER_GUARD_FD", rguard, "`reader != <fd>`"),
+        ("MOVE_READER_TARGET", rtarget, "`dup2(reader, <fd>)`"),
+    ]:
+        out += f"/-- {doc} of `PipeSet::move_to_stdin_stdout` ({PIPELINE_FILE}) -/\ndef {name} : Nat := {val}\n\n"
+    return out
 
 
 TABLES = {"PipeConsts": pipe_consts}
